@@ -472,11 +472,14 @@ def replay_template_ctor(w):
         te = t.environment
         if te.cache is not None or te.loader is not None or te.auto_reload is not False or te.bytecode_cache is not None or te.shared is not True:
             bad.append(f"{name}: spontaneous environment has cache={te.cache!r} loader={te.loader!r} auto_reload={te.auto_reload!r} bytecode_cache={te.bytecode_cache!r} shared={te.shared!r}")
-    d = jinja2.Template("x").environment
-    e = jinja2.Environment()
-    for attr in LEXER_OPTIONS:
-        if getattr(d, attr) != getattr(e, attr):
-            bad.append(f"default {attr}: Template -> {getattr(d, attr)!r}, Environment -> {getattr(e, attr)!r}")
+    try:
+        d = jinja2.Template("x").environment
+        e = jinja2.Environment()
+        for attr in LEXER_OPTIONS:
+            if getattr(d, attr) != getattr(e, attr):
+                bad.append(f"default {attr}: Template -> {getattr(d, attr)!r}, Environment -> {getattr(e, attr)!r}")
+    except Exception as ex:  # noqa
+        bad.append(f"Template('x'): {type(ex).__name__}: {ex}")
     return (bool(bad), "; ".join(bad[:3]) or "Template(...) and Environment(...) agree option by option")
 
 
